@@ -111,7 +111,10 @@ ResultIterBound(b) == Len(b) \div FloorMinItem + Len(b) \div TowerMinItem + 2
 DecEptMapResult(b) ==
   LET r == RunTowers(b, ResultInit(b))
   IN IF ~r.ok THEN [ok |-> FALSE, iters |-> r.iters]
-     ELSE [ok |-> TRUE, iters |-> r.iters, handle |-> Sub(b, 0, 20), towers |-> r.items, status |-> Sub(b, Len(b) - 4, 4)]
+     ELSE [ok |-> TRUE, iters |-> r.iters, end |-> r.cur,
+           v |-> [handle |-> Sub(b, 0, 20), num |-> Sub(b, 20, 4), max |-> Sub(b, 24, 8), count |-> Sub(b, 40, 8),
+                  refs |-> [i \in 1 .. Len(r.items) |-> Sub(b, 48 + 8 * (i - 1), 8)], towers |-> r.items,
+                  status |-> Sub(b, Len(b) - 4, 4)]]
 
 (* ---- what the client must do with a reply (C18) ---------------------------------------------- *)
 TcpPorts(tower) ==       \* ports of the TCP floors of one tower, in order
